@@ -5,7 +5,7 @@ use crate::pipe::Item;
 use stylua_lib::LuaVersion;
 
 #[derive(Clone, Debug)]
-enum T {
+pub enum T {
     N(&'static str),
     Opt(Box<T>),
     Union(Box<T>, Box<T>),
@@ -17,11 +17,24 @@ enum T {
 }
 
 impl T {
+    /// the tree in the model's notation (no parentheses)
+    pub fn sexp(&self) -> String {
+        match self {
+            T::N(n) => format!("N{}", crate::c02t::name_id(n)),
+            T::Opt(a) => format!("O({})", a.sexp()),
+            T::Union(a, b) => format!("U({},{})", a.sexp(), b.sexp()),
+            T::Inter(a, b) => format!("I({},{})", a.sexp(), b.sexp()),
+            T::Fn0(r) => format!("F()>{}", r.sexp()),
+            T::Fn1(a, r) => format!("F({})>{}", a.sexp(), r.sexp()),
+            T::Arr(a) => format!("T({})", a.sexp()),
+            T::Gen(a) => format!("G{}(N{},{})", crate::c02t::name_id("Map"), crate::c02t::name_id("string"), a.sexp()),
+        }
+    }
     fn compound(&self) -> bool {
         !matches!(self, T::N(_) | T::Arr(_) | T::Gen(_))
     }
     /// number of nodes (pre-order positions)
-    fn size(&self) -> usize {
+    pub fn size(&self) -> usize {
         match self {
             T::N(_) => 1,
             T::Opt(a) | T::Fn0(a) | T::Arr(a) | T::Gen(a) => 1 + a.size(),
@@ -30,7 +43,7 @@ impl T {
     }
     /// print; `base` = parentheses around every compound child (0 = none at all),
     /// `extra` = additional pairs around the node at pre-order position `at`
-    fn print(&self, base: usize, at: usize, extra: usize, pos: &mut usize, top: bool) -> String {
+    pub fn print(&self, base: usize, at: usize, extra: usize, pos: &mut usize, top: bool) -> String {
         let me = *pos;
         *pos += 1;
         let inner = match self {
@@ -63,7 +76,7 @@ impl T {
     }
 }
 
-fn cores() -> Vec<T> {
+pub fn cores() -> Vec<T> {
     let l0 = vec![T::N("A")];
     let next = |es: &Vec<T>, second: &'static str| -> Vec<T> {
         let mut v = es.clone();
